@@ -147,6 +147,22 @@ def purgeNodeWith (self : Nat) (cluster : Option Nat) (db hook on : Bool) (notif
   let r := cachePurge on notify hook
   (r.1, r.2, if r.2 then broadcastWith self cluster db t beh c pid else [])
 
+/-- `n` purges of the SAME cache issued on one node one after the other, the later ones possibly while the hook
+    goroutines of the earlier ones are still sending (a peer sits on its request, up to 5 s each): purge.go keeps no
+    record of notifications in flight — `if OnPurge != nil { go OnPurge(id) }` starts one goroutine per purge — and
+    BroadcastCacheFlush has no state of its own, so the sends are those of `n` independent purges, numbered
+    `pid0, pid0+1, …`. Nothing is coalesced: a peer contacted by an earlier broadcast may have reloaded the cache
+    since, and only a request sent after the later purge makes it discard that copy. -/
+def purgeBurstWith (self : Nat) (cluster : Option Nat) (db hook on : Bool) (t : List Row) (beh : Nat → PeerBeh)
+    (c : Int) : Nat → Nat → List (Msg × SendResult)
+  | _, 0 => []
+  | pid0, n + 1 =>
+    (purgeNodeWith self cluster db hook on true t beh c (some pid0)).2.2 ++
+      purgeBurstWith self cluster db hook on t beh c (pid0 + 1) n
+
+/-- the hook calls of such a burst: one per purge that fires it -/
+def purgeBurstFired (hook on : Bool) (n : Nat) : Nat := if (cachePurge on true hook).2 then n else 0
+
 /-- purge.go PurgeAll: Purge(id) for every existing cache id in ascending order -/
 def purgeAllNode (self : Nat) (cluster : Option Nat) (db hook on : Bool) (t : List Row) (cs : List Int) : List Msg :=
   cs.flatMap (fun c => (purgeNode self cluster db hook on true t c none).2.2)
